@@ -10,6 +10,9 @@ const WhopLocSymbol = Symbol("whopper-location")
 type WhopLoc struct {
 	Method  *Method
 	Current int
+	// Args are the arguments of the call being wrapped. They are passed on
+	// when continuing without arguments.
+	Args List
 }
 
 // String representation of the Object.
@@ -43,13 +46,16 @@ func (wl *WhopLoc) Eval(s *Scope, depth int) Object {
 }
 
 func (wl *WhopLoc) Continue(s *Scope, args List, depth int) Object {
+	if len(args) == 0 {
+		args = wl.Args
+	}
 	for wl.Current++; wl.Current < len(wl.Method.Combinations); wl.Current++ {
 		wrap := wl.Method.Combinations[wl.Current].Wrap
 		if wrap == nil {
 			continue
 		}
 		ws := s.NewScope()
-		ws.Let("~whopper-location~", &WhopLoc{Method: wl.Method, Current: wl.Current})
+		ws.Let("~whopper-location~", &WhopLoc{Method: wl.Method, Current: wl.Current, Args: args})
 		if lam, ok := wrap.(*Lambda); ok {
 			lam.Closure = ws
 		}
